@@ -41,76 +41,130 @@ PRE_LOCK_ALLOWED = {
 }
 
 
+MODIFY_RX = re.compile(r'^std::fs::(remove_file|remove_dir|remove_dir_all|rename|write|copy|create_dir|create_dir_all|hard_link|File::(create|create_new|set_len|set_permissions|write.*)|set_permissions)$|^std::fs::File::set_len$')
+
+
+def lock_chain(F, start):
+    """[(body, site_block, is_direct)] from `start` down to the body that calls the lock primitive itself;
+    helper extraction (a function that must-reach the lock on its Ok paths) is followed."""
+    chain = []
+    b = F.body(start)
+    seen = set()
+    while b is not None and b.path not in seen:
+        seen.add(b.path)
+        direct = b.call_sites(*LOCK)
+        if direct:
+            chain.append((b, direct[0], True))
+            return chain, len(direct)
+        ms = lib.must_sites(b, LOCK)
+        if len(ms) != 1:
+            return chain, 0
+        chain.append((b, ms[0], False))
+        nxt = [n for n in call_names(b.term(ms[0])) if n in F.bodies]
+        b = F.body(nxt[0]) if nxt else None
+    return chain, 0
+
+
 def run(ctx):
     F = ctx.F
     o = ctx.body('db::DbInner::open')
     if o:
-        locks = o.call_sites(*LOCK)
-        ctx.ob('1a lock-site', 'anchor', o.path, 'DbInner::open takes the exclusive advisory lock', len(locks) == 1, 'lock call sites: %s' % locks)
+        chain, ndirect = lock_chain(F, o.path)
+        ctx.ob('1a lock-site', 'anchor', o.path, 'DbInner::open takes the exclusive advisory lock (directly or through a helper that always does)', ndirect == 1 and bool(chain),
+               'chain %s direct lock calls %d' % ([(b.path, s) for b, s, d in chain], ndirect))
         reach_fs = F.transitive_callers([b.path for b in F.bodies.values() if any(is_fs_prim(t) for _, t in b.all_calls())])
         n = 0
         bad = []
-        for bi, t in o.calls():
-            if bi not in o.normal_blocks():
-                continue
-            names = call_names(t)
-            prim = is_fs_prim(t)
-            local = any(nm in reach_fs for nm in names if nm in F.bodies)
-            if not (prim or local):
-                continue
-            if bi in locks:
-                continue
-            n += 1
-            w = o.find_path([0], {bi}, removed=set(locks))
-            if w is None:
-                continue
-            # reachable without the lock: must be an allowed pre-lock primitive
-            if prim and any(nm in PRE_LOCK_ALLOWED for nm in names):
-                continue
-            bad.append('%s at %s' % (names[0], o.loc(bi)))
+        for (b, site, direct) in chain:
+            for bi, t in b.calls():
+                if bi not in b.normal_blocks() or bi == site:
+                    continue
+                names = call_names(t)
+                prim = is_fs_prim(t)
+                local = any(nm in reach_fs for nm in names if nm in F.bodies)
+                if not (prim or local):
+                    continue
+                n += 1
+                if b.find_path([0], {bi}, removed={site}) is None:
+                    continue
+                if prim and any(nm in PRE_LOCK_ALLOWED for nm in names):
+                    continue
+                bad.append('%s in %s at %s' % (names[0], b.path, b.loc(bi)))
         ctx.ob('1b lock-before-any-file-access', 'K2-order', o.path,
-               'every call in DbInner::open that can touch a file (std::fs/memmap2/io traits, directly or through crate callees) is preceded on all paths by try_lock_exclusive, except directory creation / existence test / opening the lock file',
+               'every call on the way to the lock and in DbInner::open that can touch a file (std::fs/memmap2/io traits, directly or through crate callees) is preceded on all paths by the lock, except directory creation / existence test / opening the lock file',
                not bad and n >= 3, 'file-touching calls reachable without holding the lock: %s' % bad if bad else 'only %d file-touching calls found' % n, o.loc())
-        ctx.info['C18.file_touching_calls_in_open'] = n
-        # the pre-lock OpenOptions::open must be the lock file (its File is the one that gets locked)
-        opens = [bi for bi in o.call_sites('std::fs::OpenOptions::open') if o.find_path([0], {bi}, removed=set(locks))]
-        ok = False
-        if len(locks) == 1 and len(opens) == 1:
-            sl = backward_slice(o, [op_place(o.term(locks[0])['a'][0])])
-            ok = any(bi == opens[0] for bi, _ in sl.call_sites)
-        ctx.ob('1c prelock-open-is-the-lock-file', 'K4-provenance', o.path,
-               'the only file opened before the lock is the file that is then locked', ok, 'pre-lock opens: %s' % opens)
-        # create_dir_all only in Create mode
+        ctx.info['C18.file_touching_calls_checked'] = n
+        if chain and chain[-1][2]:
+            db_, ls, _ = chain[-1]
+            opens = [bi for bi in db_.call_sites('std::fs::OpenOptions::open', 'std::fs::File::open', 'std::fs::File::create') if db_.find_path([0], {bi}, removed={ls})]
+            sl = backward_slice(db_, [op_place(db_.term(ls)['a'][0])])
+            ok = len(opens) == 1 and any(bi == opens[0] for bi, _ in sl.call_sites)
+            ctx.ob('1c prelock-open-is-the-lock-file', 'K4-provenance', db_.path, 'the only file opened before the lock is the file that is then locked', ok, 'pre-lock opens: %s' % opens)
+            t = db_.term(ls)
+            nxt = db_.term(t['t']) if 't' in t else {}
+            ok = nxt.get('k') == 'call' and call_matches(nxt, ['std::result::Result::<T, E>::map_err']) and any(a.get('fn') == 'error::Error::Locked' for a in nxt['a'])
+            ctx.ob('1e lock-error-mapped-to-Locked', 'K6-error', db_.path, 'a failed lock attempt is converted to Error::Locked', ok, '')
+            ctx.ob('1g lock-error-is-returned', 'K6-error', db_.path, 'the Err outcome of the lock attempt reaches the return value (from_residual)',
+                   any(b2 in core.error_exit_blocks(db_) for b2 in db_.reaches(ls)), '')
+            # a failed attempt modifies nothing: the error-only region after the lock call
+            cont = None
+            cur = t.get('t')
+            for _ in range(4):
+                if cur is None:
+                    break
+                tt = db_.term(cur)
+                if tt['k'] == 'call' and call_matches(tt, [lib.TRY_BRANCH]):
+                    sw = db_.term(tt['t'])
+                    if sw['k'] == 'switch':
+                        for v, tg in zip(sw['vals'], sw['ts']):
+                            if v == 0:
+                                cont = (tt['t'], tg)
+                    break
+                cur = tt.get('t') if tt['k'] == 'call' else None
+            bad2 = []
+            if cont:
+                swb, ok_t = cont
+                err_region = db_.reachable_from([x for x in db_.succ(swb) if x != ok_t]) - db_.reachable_from([ok_t])
+                modifiers = F.transitive_callers([bb.path for bb in F.bodies.values() if any(any(MODIFY_RX.search(nm) for nm in call_names(tt2)) for _, tt2 in bb.all_calls())])
+                for bi in sorted(err_region):
+                    tt = db_.blocks[bi]['t']
+                    if tt['k'] == 'call':
+                        nms = call_names(tt)
+                        if any(MODIFY_RX.search(nm) for nm in nms) or any(nm in modifiers for nm in nms if nm in F.bodies):
+                            bad2.append('%s at %s' % (nms[0], db_.loc(bi)))
+                    elif tt['k'] == 'drop':
+                        for dp in F.drop_impls_for(tt['ty']):
+                            if dp in modifiers:
+                                bad2.append('drop of %s runs %s at %s' % (tt['ty'], dp, db_.loc(bi)))
+            ctx.ob('1h failed-lock-attempt-changes-nothing', 'K6b-effect-before-error', db_.path,
+                   'on the path where the lock attempt failed nothing that creates, deletes, renames or resizes a file is reachable (also not through Drop of a guard) - the lock file belongs to the live owner',
+                   cont is not None and not bad2, 'no `?` after the lock call' if cont is None else '; '.join(bad2))
         for s in o.call_sites('std::fs::create_dir_all'):
             lib.eq_guarded(ctx, '1d create_dir-only-in-create-mode', o, s, 'the directory is created only when opening_mode == Create', params=[2])
-        # error of the lock attempt is returned as Error::Locked
-        if locks:
-            t = o.term(locks[0])
-            nxt = o.term(t['t']) if 't' in t else {}
-            ok = nxt.get('k') == 'call' and call_matches(nxt, ['std::result::Result::<T, E>::map_err']) and any(a.get('fn') == 'error::Error::Locked' for a in nxt['a'])
-            ctx.ob('1e lock-error-mapped-to-Locked', 'K6-error', o.path, 'a failed lock attempt is converted to Error::Locked', ok, '')
+        top_site = chain[0][1] if chain else None
+        if top_site is not None:
             later = o.call_sites('options::Options::load_and_validate_metadata')
             for s in later:
-                lib.result_guards(ctx, '1f continue-only-if-locked', o, locks, s, 'metadata is loaded only on the Ok outcome of the lock attempt')
-            ctx.ob('1g lock-error-is-returned', 'K6-error', o.path, 'the Err outcome of the lock attempt reaches the return value (from_residual)',
-                   any(b in core.error_exit_blocks(o) for b in o.reaches(locks[0])), '')
+                lib.result_guards(ctx, '1f continue-only-if-locked', o, [top_site], s, 'metadata is loaded only on the Ok outcome of the lock attempt')
         # ------------------------------------------------ 2. held for the handle's lifetime
         adt = F.adts.get('db::DbInner')
-        fidx = [f['name'] for f in adt['variants'][0]['fields']].index('lock_file') if adt else None
+        fidx = [f['name'] for f in adt['variants'][0]['fields']].index('lock_file') if adt and 'lock_file' in [f['name'] for f in adt['variants'][0]['fields']] else None
         aggs = [(bi, s) for bi in o.normal_blocks() for s in o.blocks[bi]['s'] if s['k'] == 'assign' and s['r']['k'] == 'agg' and s['r']['ak'] == 'Adt:db::DbInner']
         ok = False
-        det = 'no DbInner aggregate in DbInner::open'
-        if aggs and fidx is not None and locks:
-            lockfile_local = set(l for l in backward_slice(o, [op_place(o.term(locks[0])['a'][0])], through_calls=False).locals if o.locals[l] == 'std::fs::File')
+        det = 'no DbInner aggregate with a lock_file field in DbInner::open'
+        if aggs and fidx is not None and top_site is not None:
             a = aggs[0][1]['r']['a'][fidx]
-            ok = a.get('o') == 'm' and len(a['p']) == 1 and bool(lockfile_local & backward_slice(o, [a['p']], through_calls=False).locals)
-            det = 'DbInner.lock_file is initialised from %s, the locked file is local(s) %s' % (core.op_str(a), sorted(lockfile_local))
-        ctx.ob('2a locked-file-stored-in-handle', 'K4-provenance', o.path, 'the File that was locked is moved into DbInner.lock_file (so it lives as long as the handle)', ok, det)
-        # the locked file is not dropped on the success path before the aggregate
-        if aggs and locks:
-            lf = [l for l in backward_slice(o, [op_place(o.term(locks[0])['a'][0])], through_calls=False).locals if o.locals[l] == 'std::fs::File']
+            if op_place(a):
+                if chain[0][2]:
+                    lockfile_local = set(l for l in backward_slice(o, [op_place(o.term(top_site)['a'][0])], through_calls=False).locals if o.locals[l] == 'std::fs::File')
+                    ok = a.get('o') == 'm' and bool(lockfile_local & backward_slice(o, [a['p']], through_calls=False).locals)
+                else:
+                    ok = a.get('o') == 'm' and any(bi == top_site for bi, _ in backward_slice(o, [a['p']]).call_sites)
+            det = 'DbInner.lock_file is initialised from %s' % core.op_str(a)
+        ctx.ob('2a locked-file-stored-in-handle', 'K4-provenance', o.path, 'the value that holds the lock is moved into DbInner.lock_file (so it lives as long as the handle)', ok, det)
+        if aggs and top_site is not None and chain[0][2]:
+            lf = [l for l in backward_slice(o, [op_place(o.term(top_site)['a'][0])], through_calls=False).locals if o.locals[l] == 'std::fs::File']
             drops = [bi for bi in o.normal_blocks() if o.term(bi)['k'] == 'drop' and o.term(bi)['p'][0] in lf]
-            w = o.find_path([locks[0]], {aggs[0][0]}, removed=set()) if False else None
             bad = [d for d in drops if aggs[0][0] in o.reaches(d)]
             ctx.ob('2b lock-not-dropped-before-store', 'K2-order', o.path, 'no drop of the locked File lies on a path to the DbInner construction', not bad, 'drops: %s' % bad)
     mk = sorted(b.path for b in F.bodies.values() if any(s['k'] == 'assign' and s['r']['k'] == 'agg' and s['r']['ak'] == 'Adt:db::DbInner' for blk in b.blocks for s in blk['s']))
@@ -135,10 +189,14 @@ def run(ctx):
     fg = sorted(F.direct_callers_of('std::mem::forget', 're:ManuallyDrop.*::new$', 'std::boxed::Box::<T, A>::leak', 're:Arc.*::into_raw$'))
     ctx.ob('2g no-forget', 'K4-confinement', ','.join(fg) or '-', 'no mem::forget / ManuallyDrop / Box::leak / Arc::into_raw in the crate (a leaked handle would hold the lock forever, a leaked DbInner would skip unlock ordering)', not fg, str(fg))
     # ------------------------------------------------ 3. released last
-    lib.callers_confined(ctx, '3a unlock-callers', F, UNLOCK, {'db::Db::drop_inner'}, 'unlock is called only by Db::drop_inner', required=['db::Db::drop_inner'])
     d = ctx.body('db::Db::drop_inner')
+    direct_un = F.direct_callers_of(*UNLOCK)
+    un_reach = F.transitive_callers(direct_un)
+    # unlock is reachable only through Db::drop_inner (and the helper chain below it)
+    outside = sorted(c for c in direct_un if c != 'db::Db::drop_inner' and 'db::Db::drop_inner' not in F.transitive_callers([c]))
+    ctx.ob('3a unlock-callers', 'K4-confinement', ','.join(sorted(direct_un)), 'the lock is released only on the Db::drop_inner path', bool(direct_un) and not outside and 'db::Db::drop_inner' in un_reach, 'callers %s' % sorted(direct_un))
     if d:
-        un = d.call_sites(*UNLOCK)
+        un = lib.must_sites(d, UNLOCK)
         kl = d.call_sites('db::DbInner::kill_logs')
         lib.precedes(ctx, '3b kill_logs-before-unlock', d, kl, un, 'the final drain/cleanup (kill_logs) completes before the lock is released')
         joins = d.call_sites('re:JoinHandle.*::join$')
@@ -154,6 +212,13 @@ def run(ctx):
         for u in un:
             ok = '.DbInner.lock_file' in lib.receiver_fields(d, d.term(u), 0)
             ctx.ob('3e unlock-receiver', 'K4-provenance', d.path, 'unlock is applied to DbInner.lock_file', ok, '')
+    # the lock file is never unlinked (a deleted lock file lets a second opener lock a fresh one)
+    lib.callers_confined(ctx, '3h remove_file-callers', F, ['std::fs::remove_file', 'std::fs::remove_dir_all', 'std::fs::rename'],
+                         {'log::Log::open', 'log::Log::drop_log', 'column::Column::drop_files', 'file::TableFile::remove', 'index::IndexTable::drop_file',
+                          'ref_count::RefCountTable::drop_file', 'migration::deplace_column', 'migration::migrate::{closure#2}'},
+                         'files are unlinked/renamed only by the known log, table, index, ref-count and migration sites - none of which can name the lock file', required=['log::Log::drop_log'])
+    if False:
+        pass
         lib.must_pass(ctx, '3f drop_inner-always-unlocks', d, un, 'every path through drop_inner reaches unlock', cut_errors=False)
     dr = ctx.body('<db::Db as std::ops::Drop>::drop')
     if dr:
